@@ -179,10 +179,19 @@ def _svd_deviation(pts):
     return float(np.abs(u[:, -1] @ c.T).max())
 
 
-def _plane_points(r, n, closed, coplanar):
+PLANE_SHAPES = ['generic', 'generic', 'collinear-prefix', 'repeated-first', 'large', 'tiny']
+
+
+def _plane_points(r, n, closed, coplanar, shape='generic'):
     """n points (x, y, z), dyadic; exactly coplanar, or clearly not (deviation from the best plane >= 0.05, tolerance
-    of the library 1e-5); first == last iff closed (n >= 2)."""
-    for _ in range(200):
+    of the library 1e-5); first == last iff closed (n >= 2).
+    shape: 'collinear-prefix' = the first three points on one line (a vertex in the middle of the first edge, a contour
+    traced pixel by pixel), 'repeated-first' = the second point repeats the first -- the first three points then fix NO
+    plane; 'large' / 'tiny' = the whole figure scaled by 64 / 1/64 (a tolerance relative to the extent would differ).
+    A vertex that leaves the plane is never one of the first three."""
+    degenerate = shape in ('collinear-prefix', 'repeated-first') and n >= 4
+    scale = {'large': 64.0, 'tiny': 1 / 64}.get(shape, 1.0)
+    for _ in range(400):
         o = [_dyadic(r, 8, 64) for _ in range(3)]
         u = [r.randint(-4, 4) / 2 for _ in range(3)]
         v = [r.randint(-4, 4) / 2 for _ in range(3)]
@@ -197,12 +206,26 @@ def _plane_points(r, n, closed, coplanar):
                 continue
             seen.add((a, b))
             pts.append([o[k] + a * u[k] + b * v[k] for k in range(3)])
+        if degenerate:
+            step = r.choice([0.5, 1.0, -1.0])
+            if shape == 'collinear-prefix':
+                pts[1] = [pts[0][k] + step * u[k] for k in range(3)]
+                pts[2] = [pts[0][k] + 2 * step * u[k] for k in range(3)]
+            else:
+                pts[1] = list(pts[0])
         if closed and n >= 2:
             pts[-1] = list(pts[0])
         if not coplanar and n >= 4:
-            k = r.randrange(1, n - 1)
+            lo = 3 if degenerate else 1
+            hi = n - 1 if closed else n
+            if hi <= lo:
+                continue
+            k = r.randrange(lo, hi)
             sgn = r.choice([1, 2, -1])
             pts[k] = [pts[k][i] + sgn * w[i] for i in range(3)]
+        pts = [[x * scale for x in p] for p in pts]
+        if any(float(np.float32(x)) != x for p in pts for x in p):
+            continue
         if coplanar_exact(pts) != (coplanar or n < 4):
             continue
         if not coplanar and n >= 4 and _svd_deviation(pts) < 0.05:
@@ -338,7 +361,13 @@ def gen_item(r, depth=0, vt=None, bad=None, need_rel=False):
             pts[-1][k] += r.choice([2.0 ** -13, -2.0 ** -14, 2.0 ** -15]) if tiny else r.choice([0.5, -1.0, 2.0])
             assert pts[-1] != pts[0] and all(float(np.float32(x)) == x for x in pts[-1])
         elif gt in ('POLYGON', 'ELLIPSE') or r.random() < 0.5:
-            pts = _plane_points(r, n, closed, coplanar)
+            shape = r.choice(PLANE_SHAPES) if d['bad'] != 'count' else 'generic'
+            if shape in ('collinear-prefix', 'repeated-first') and gt == 'POLYGON':
+                n = max(n, 5 if coplanar else 6)        # a closed polygon needs a vertex beyond the degenerate prefix
+            if not coplanar and shape == 'tiny':
+                shape = 'generic'                       # a tiny figure cannot leave its plane by a clear margin
+            a['shape'] = shape
+            pts = _plane_points(r, n, closed, coplanar, shape if (coplanar or gt == 'POLYGON' or shape in ('large',)) else 'generic')
         elif r.random() < 0.4:
             pts = [[r.choice([0.1, 1 / 3, r.uniform(-500, 500)]) for _ in range(3)] for _ in range(n)]
         else:
@@ -353,7 +382,7 @@ def gen_item(r, depth=0, vt=None, bad=None, need_rel=False):
         a['layout'] = r.choice(LAYOUTS)
     elif vt == 'TCOORD':
         a['range'] = r.choice(TRT)
-        k = r.choice(['positions', 'positions', 'offsets', 'datetimes'])
+        k = r.choice(['positions', 'positions', 'offsets', 'offsets', 'datetimes'])
         n = r.choice([1, 1, 2, 3, 4])
         a['positions'] = a['offsets'] = a['datetimes'] = None
         if bad == 'none':
@@ -361,8 +390,11 @@ def gen_item(r, depth=0, vt=None, bad=None, need_rel=False):
         elif k == 'positions':
             a['positions'] = [r.randint(1, 10 ** 6) for _ in range(n)]
         elif k == 'offsets':
+            # incl. the boundary values a truth test mistakes for "no value": 0.0, -0.0, the int 0 (also as the ONLY offset)
             a['offsets'] = [r.choice([_dyadic(r, 1024, 2 ** 10), float(r.randint(0, 9999)), 0.1 + 0.2, 1 / 3, r.uniform(0, 1e4),
-                                      r.uniform(0, 1e-3)]) for _ in range(n)]
+                                      r.uniform(0, 1e-3), 0.0, 0.0, -0.0, 0]) for _ in range(n)]
+            if r.random() < 0.3:
+                a['offsets'] = [r.choice([0.0, -0.0, 0]) for _ in range(n)]
         else:
             a['datetimes'] = [[r.randint(1990, 2030), r.randint(1, 12), r.randint(1, 28), r.randint(0, 23), r.randint(0, 59),
                                r.randint(0, 59), r.choice([0, 678, 999999]), None] for _ in range(n)]
@@ -1467,7 +1499,9 @@ def check_item(ctx, case, reqs=None, pend=None):
     ctx.case(sample=case if ctx.evaluations % 211 == 0 else None, nontrivial_key=ntkey, value_type=vt,
              outcome=('ok' if it is not None else 'refused:' + str(err)), planted=str(bad),
              graphic_type=(f'{vt}/{gt}/{len(a["pts"])}' if gt else None) or '-', depth=_depth(d),
-             children=len(d['children']), layout=a.get('layout', '-'),
+             children=len(d['children']), layout=a.get('layout', '-'), plane_shape=a.get('shape', '-'),
+             zero_values=(f'{vt}/' + ('only-zero' if len(_zeros(a)) == 1 and _zeros(a)[0] == 0 else 'some-zero' if 0 in _zeros(a) else 'none'))
+             if vt in ('TCOORD', 'NUM') else '-',
              **{'spelling_' + k: f'{vt}/{v}' for k, v in (d.get('sp') or {}).items() if k in
                 ('rel', 'value', 'frames', 'segments', 'channels', 'values', 'datetime', 'gt', 'origin', 'range', 'continuous',
                  'template', 'also')},
@@ -1477,6 +1511,17 @@ def check_item(ctx, case, reqs=None, pend=None):
                                                                     'origin', 'fiducial') if k in a]) else '-',
              code_args=sum(1 for c in (d['name'], a.get('value'), a.get('unit'), a.get('qualifier')) if isinstance(c, dict) and c.get('as_code')))
     return it, err, obs
+
+
+def _zeros(a):
+    """the numeric values of a TCOORD / NUM specification (to count the falsy ones)"""
+    if a.get('offsets') is not None:
+        return list(a['offsets'])
+    if a.get('positions') is not None:
+        return list(a['positions'])
+    if 'value' in a and isinstance(a['value'], (int, float)):
+        return [a['value']]
+    return [1]
 
 
 def _depth(d):
@@ -1551,13 +1596,22 @@ def _coplanar_law(ctx, reqs, pend):
         r = ctx.rng('coplanar', i)
         n = r.choice([3, 4, 4, 5, 6, 9])
         cop = r.random() < 0.5 or n < 4
-        pts = _plane_points(r, n, r.random() < 0.5 and (cop or n >= 5), cop)
-        impl = bool(are_points_coplanar(np.array(pts, dtype=float)))
+        shape = r.choice(PLANE_SHAPES)
+        if not cop and shape == 'tiny':
+            shape = 'generic'
+        if not cop and shape in ('collinear-prefix', 'repeated-first'):
+            n = max(n, 5)
+        closed_ = r.random() < 0.5 and (cop or n >= 6)
+        pts = _plane_points(r, n, closed_, cop, shape)
+        dt = r.choice(['float64', 'float64', 'float32'])        # graphic data is single precision: the verdict must not depend on it
+        impl = bool(are_points_coplanar(np.array(pts, dtype=dt)))
+        ctx.hist('coplanar_law_dtype', dt)
         reqs.append(('coplanar', {'pts': [[_fr(x) for x in p] for p in pts]}))
         pend.append(('coplanar', {'pts': pts}, impl))
         if impl != coplanar_exact(pts):
             ctx.note(f'generator: exact coplanarity {coplanar_exact(pts)} but library says {impl} for {pts}')
         ctx.hist('coplanar_law', f'n={n}/{"coplanar" if impl else "not"}')
+        ctx.hist('coplanar_law_shape', f'{shape}/{"coplanar" if cop else "not"}')
 
 
 def replay(ctx, case):
